@@ -26,10 +26,31 @@
 (* scenarios keep both on the same side of the limit (sizeof says which    *)
 (* of the two has exactly `size` bytes): received <= 65 536 implies        *)
 (* surviving <= 65 536, surviving > 65 536 implies received > 65 536.      *)
+(*                                                                         *)
+(* WHERE the bytes are (family "place").  "their JSON" is the whole JSON   *)
+(* of the event, so on build and in CheckFields the judgement depends on   *)
+(* the total only, wherever its bulk sits: in content, in unsigned, split  *)
+(* between the two (each part far below the limit), in type / state key    *)
+(* at their own limits plus content, in prev_events, in auth_events, in    *)
+(* the signatures of many servers.  `size` is the total, `proper` the      *)
+(* bytes of the same JSON without its "unsigned" member.                   *)
+(* On receipt the receiver drops "unsigned" (data local to the sending     *)
+(* server, with age_ts / outlier / destinations) before there is an event: *)
+(* the event it keeps, judges and hands on has `proper` bytes, and that is *)
+(* the JSON the model judges on receipt (the size scenarios without        *)
+(* unsigned have always meant this: proper = size).  Where the dropped     *)
+(* member alone carries the received bytes over the limit (proper <=       *)
+(* 65 536 < size) the sentence can also be read literally (the JSON that   *)
+(* arrived is too long): `alt` admits "refused" there next to the          *)
+(* judgement of the kept event, and nowhere else.                          *)
+(* An event also comes to CheckFields after SetUnsigned (the unsigned      *)
+(* bytes are added to an event of `proper` bytes) and after Sign by        *)
+(* further servers (vias "setunsigned", "sign"): CheckFields judges the    *)
+(* event before (`pre`) and after the step.                                *)
 (***************************************************************************)
 EXTENDS MatrixBase
 
-CONSTANTS Versions, Family      \* "single" | "core" | "pair" | "create"
+CONSTANTS Versions, Family      \* "single" | "core" | "pair" | "create" | "place"
 
 MaxFieldLen == 255
 MaxEventLen == 65536
@@ -65,8 +86,10 @@ Shapes(f) ==
 SoftOnly == [cps |-> 200, nwide |-> 100, width |-> 2]      \* 300 bytes, 200 code points
 HardCps  == [cps |-> 256, nwide |-> 0, width |-> 1]
 
-VARIABLES sc, phase, out
-vars == <<sc, phase, out>>
+\* ev: byte accounting of the PDU in hand (total / without unsigned); pre: what CheckFields said of the PDU
+\* before SetUnsigned / Sign ("none" when the scenario has no such step)
+VARIABLES sc, phase, out, ev, pre
+vars == <<sc, phase, out, ev, pre>>
 
 AllNatural == [f \in Fields |-> Natural]
 
@@ -103,34 +126,113 @@ Scenarios == CASE Family = "single" -> Singles \cup Sizes
                [] Family = "core" -> CoreSingles \cup Sizes
                [] Family = "pair" -> Pairs
 
-Init == /\ phase = "scenario" /\ out = "none"
-        /\ \E v \in Versions, p \in Paths, s0 \in Scenarios : \E h \in HashesOf(p) :
+\* --- where the bytes are ---------------------------------------------------------
+Places == {"content", "unsigned", "split", "mixed", "fields", "prev_events", "auth_events", "signatures"}
+UnsignedPlaces == {"unsigned", "split", "mixed"}
+Around == {65535, 65536, 65537}
+AtLimit == [cps |-> 255, nwide |-> 0, width |-> 1]
+SmallEvent == 2000      \* "unsigned": an event of 2000 bytes, everything else in unsigned
+Half == 32768           \* "split": half of the limit in unsigned, the rest in the event proper
+Few == 40               \* "mixed": 40 bytes of unsigned next to a large content
+SignBase == 4000        \* "sign": an event of 4000 bytes to which further servers add their signatures
+PlacedAt(pl) ==
+    CASE pl = "unsigned" -> {[size |-> sz, proper |-> SmallEvent] : sz \in Around}
+      [] pl = "split"    -> {[size |-> sz, proper |-> sz - Half] : sz \in Around}
+                            \cup {[size |-> 80000, proper |-> 40000]}        \* both parts far below, the sum far above
+      \* the boundary of the total and the boundary of the event proper
+      [] pl = "mixed"    -> {[size |-> sz, proper |-> sz - Few] : sz \in Around} \cup {[size |-> sz + Few, proper |-> sz] : sz \in Around}
+      [] OTHER           -> {[size |-> sz, proper |-> sz] : sz \in Around}
+Placed == UNION {{[size |-> q.size, proper |-> q.proper, place |-> pl,
+                   fields |-> IF pl = "fields" THEN [AllNatural EXCEPT !["type"] = AtLimit, !["state_key"] = AtLimit] ELSE AllNatural]
+                  : q \in PlacedAt(pl)} : pl \in Places}
+\* EventBuilder.Build signs once: the signatures of many servers reach an event by Sign or arrive with it
+Realisable(p, pl) == ~(p = "build" /\ pl = "signatures")
+ViasOf(p, pl) == CASE p = "receipt" -> {"wire"}
+                   [] p = "build" -> {"builder"}
+                   [] p = "checkfields" -> {"trusted", "headered"} \cup (IF pl \in UnsignedPlaces THEN {"setunsigned"} ELSE {})
+                                                                 \cup (IF pl = "signatures" THEN {"sign"} ELSE {})
+DefaultVia(p) == CHOOSE w \in ViasOf(p, "content") : w # "headered"
+Derived == {"setunsigned", "sign"}
+\* bytes of the PDU before the SetUnsigned / Sign step
+BaseBytes(w, size, proper) == IF w = "setunsigned" THEN proper ELSE IF w = "sign" THEN SignBase ELSE size
+
+InitClassic == \E v \in Versions, p \in Paths, s0 \in Scenarios : \E h \in HashesOf(p) :
              /\ (Family = "create" => DomainlessRoomIDs(v) /\ p # "build")
              /\ sc = [ver |-> v, path |-> p, hash |-> h, size |-> s0.size, sizeof |-> SizeOf(h, s0.size), fields |-> s0.fields,
-                      create |-> Family = "create"]
+                      create |-> Family = "create", place |-> IF s0.size = 0 THEN "n/a" ELSE "content", proper |-> s0.size,
+                      via |-> DefaultVia(p), base |-> s0.size]
+\* a mismatching content hash on receipt: the classic size scenarios grow the event through auth_events, which
+\* redaction keeps; prev_events is the other list that it keeps
+PlaceHashes(p, pl) == IF pl = "prev_events" THEN HashesOf(p) ELSE {"match"}
+InitPlace == \E v \in Versions, p \in Paths, s0 \in Placed : \E w \in ViasOf(p, s0.place), h \in PlaceHashes(p, s0.place) :
+             /\ Realisable(p, s0.place)
+             /\ sc = [ver |-> v, path |-> p, hash |-> h, size |-> s0.size, sizeof |-> SizeOf(h, s0.size), fields |-> s0.fields,
+                      create |-> FALSE, place |-> s0.place, proper |-> s0.proper,
+                      via |-> w, base |-> BaseBytes(w, s0.size, s0.proper)]
+Init == /\ phase = "scenario" /\ out = "none" /\ pre = "none"
+        /\ IF Family = "place" THEN InitPlace ELSE InitClassic
+        /\ ev = IF sc.via \in Derived THEN [size |-> sc.base, proper |-> IF sc.via = "sign" THEN sc.base ELSE sc.proper]
+                ELSE [size |-> sc.size, proper |-> sc.proper]
 
 \* --- the rule ----------------------------------------------------------------
-Hard(s) == s.size > MaxEventLen \/ \E f \in Fields : CpsOf(s.fields[f]) > MaxFieldLen
+\* the JSON that is judged: the whole event; on receipt the event that is kept (no unsigned)
+Measured(s) == IF s.path = "receipt" THEN s.proper ELSE s.size
+Hard(s) == Measured(s) > MaxEventLen \/ \E f \in Fields : CpsOf(s.fields[f]) > MaxFieldLen
 Soft(s) == \E f \in Fields : BytesOf(s.fields[f]) > MaxFieldLen
 Judgement(s) == IF Hard(s) THEN "refused" ELSE IF Soft(s) THEN "persistable" ELSE "ok"
+\* receipt of a JSON that is over the limit only with the member the receiver drops
+Straddle(s) == s.path = "receipt" /\ s.proper <= MaxEventLen /\ s.size > MaxEventLen
+Alt(s) == IF Straddle(s) THEN "refused" ELSE Judgement(s)
+Judge(e) == Judgement([sc EXCEPT !.size = e.size, !.proper = e.proper])
 
-Receive     == phase = "scenario" /\ sc.path = "receipt"     /\ out' = Judgement(sc) /\ phase' = "done" /\ UNCHANGED sc
-Build       == phase = "scenario" /\ sc.path = "build"       /\ out' = Judgement(sc) /\ phase' = "done" /\ UNCHANGED sc
-CheckFields == phase = "scenario" /\ sc.path = "checkfields" /\ out' = Judgement(sc) /\ phase' = "done" /\ UNCHANGED sc
+Receive     == phase = "scenario" /\ sc.path = "receipt"     /\ out' = Judge(ev) /\ phase' = "done" /\ UNCHANGED <<sc, ev, pre>>
+Build       == phase = "scenario" /\ sc.path = "build"       /\ out' = Judge(ev) /\ phase' = "done" /\ UNCHANGED <<sc, ev, pre>>
+CheckFields == /\ sc.path = "checkfields"
+               /\ \/ /\ phase = "scenario" /\ sc.via \in Derived
+                     /\ pre' = Judge(ev) /\ phase' = "base" /\ UNCHANGED <<sc, ev, out>>
+                  \/ /\ (phase = "scenario" /\ sc.via \notin Derived) \/ phase = "derived"
+                     /\ out' = Judge(ev) /\ phase' = "done" /\ UNCHANGED <<sc, ev, pre>>
+\* SetUnsigned returns a copy of the event that carries the unsigned member; Sign one with one more signature
+SetUnsigned == /\ phase = "base" /\ sc.via = "setunsigned"
+               /\ ev' = [size |-> ev.proper + (sc.size - sc.proper), proper |-> ev.proper]
+               /\ phase' = "derived" /\ UNCHANGED <<sc, out, pre>>
+Sign        == /\ phase = "base" /\ sc.via = "sign"
+               /\ ev' = [size |-> ev.size + (sc.size - sc.base), proper |-> ev.proper + (sc.size - sc.base)]
+               /\ phase' = "derived" /\ UNCHANGED <<sc, out, pre>>
 
-Next == Receive \/ Build \/ CheckFields
+Next == Receive \/ Build \/ CheckFields \/ SetUnsigned \/ Sign
 Spec == Init /\ [][Next]_vars
 
 \* --- the property sentence, clause by clause -----------------------------------
 Done == phase = "done"
-RefusedWhenOver == Done => ((sc.size > 65536 \/ \E f \in Fields : sc.fields[f].cps > 255) <=> out = "refused")
+\* "their JSON": all of it on build and in CheckFields; on receipt the event as kept (received minus "unsigned")
+JsonBytes == IF sc.path = "receipt" THEN sc.proper ELSE sc.size
+RefusedWhenOver == Done => ((JsonBytes > 65536 \/ \E f \in Fields : sc.fields[f].cps > 255) <=> out = "refused")
 PersistableOnlyBytes == Done => (out = "persistable" <=>
-                                   /\ sc.size <= 65536 /\ \A f \in Fields : sc.fields[f].cps <= 255
+                                   /\ JsonBytes <= 65536 /\ \A f \in Fields : sc.fields[f].cps <= 255
                                    /\ \E f \in Fields : BytesOf(sc.fields[f]) > 255)
 \* a mismatching content hash changes nothing
 HashIndependent == Done => out = Judgement([sc EXCEPT !.hash = "match", !.sizeof = "both"])
-OkWithin == Done => (out = "ok" <=> sc.size <= 65536 /\ \A f \in Fields : BytesOf(sc.fields[f]) <= 255)
+OkWithin == Done => (out = "ok" <=> JsonBytes <= 65536 /\ \A f \in Fields : BytesOf(sc.fields[f]) <= 255)
 ShapesWellFormed == \A f \in Fields : LET sh == sc.fields[f] IN
                        sh = Natural \/ (/\ BytesOf(sh) >= CpsOf(sh) /\ sh.nwide >= 0 /\ sh.nwide <= sh.cps - Frame(f)
                                         /\ (sh.width = 1 <=> sh.nwide = 0))
+\* on build and in CheckFields only the total counts: not where its bytes are, not how the event came to be
+PlacementIndependent == Done /\ sc.path # "receipt" =>
+                          out = Judgement([sc EXCEPT !.place = "content", !.proper = sc.size, !.via = DefaultVia(sc.path), !.base = sc.size])
+\* on receipt the judgement is that of the same event arriving without its unsigned member
+ReceiptJudgesKept == Done /\ sc.path = "receipt" => out = Judgement([sc EXCEPT !.size = sc.proper])
+\* the second reading is admitted for the straddling receipt only, and is the literal one
+AltOnlyStraddle == Done => /\ (Alt(sc) # out => sc.path = "receipt" /\ sc.size > 65536 /\ sc.proper <= 65536 /\ Alt(sc) = "refused")
+                           /\ (sc.path = "receipt" /\ sc.size > 65536 => "refused" \in {out, Alt(sc)})
+\* byte accounting: unsigned is a part of the JSON; the PDU that is finally judged is the scenario's event;
+\* adding bytes to an event never lifts a refusal
+Accounting == /\ sc.proper <= sc.size /\ sc.base <= sc.size
+              /\ (sc.proper < sc.size => sc.place \in UnsignedPlaces)
+              /\ (sc.size = 0 <=> sc.place = "n/a")
+              /\ ev.proper <= ev.size /\ ev.size <= sc.size
+              /\ (Done => ev = [size |-> sc.size, proper |-> sc.proper])
+              /\ (Done => (sc.via \in Derived <=> pre # "none"))
+              /\ (sc.via \in Derived => sc.path = "checkfields")
+GrowthKeepsRefusal == Done /\ pre = "refused" => out = "refused"
 =============================================================================
